@@ -560,6 +560,36 @@ impl<T: UciTx, H: Heuristic, M: MoveOrder> Search<T, H, M> {
         }, e.mv.value, e.zobrist_hash))
     }
 
+    /// `line`: (value, move bits) per ply, first ply first; an empty slice stores a bare leaf of value 0
+    pub(crate) fn verif_tt_put_line(&mut self, key: ZobristHash, depth: usize, value: i32, node_type: u8, line: &[(i32, Option<u64>)]) {
+        let node_type = match node_type {
+            0 => Exact,
+            1 => Lowerbound,
+            _ => Upperbound,
+        };
+        let mut chain: Option<ValuedMove> = None;
+        for &(v, bits) in line.iter().rev() {
+            chain = Some(ValuedMove::new(v, bits.map(|bits| Move { bits, mvvlva: 0 }), chain));
+        }
+        self.state.transposition_table.put(key, TtEntry::new(chain.unwrap_or_else(|| ValuedMove::leaf(0)), key, depth, value, node_type));
+    }
+
+    pub(crate) fn verif_tt_get_line(&mut self, key: ZobristHash) -> Option<(usize, i32, u8, Vec<(i32, Option<u64>)>, ZobristHash)> {
+        self.state.transposition_table.get(key).map(|e| {
+            let mut line = Vec::new();
+            let mut current = Some(&e.mv);
+            while let Some(c) = current {
+                line.push((c.value, c.mv.map(|m| m.bits)));
+                current = (*c.pv_child).as_ref();
+            }
+            (e.depth, e.value, match e.node_type {
+                Exact => 0,
+                Lowerbound => 1,
+                Upperbound => 2,
+            }, line, e.zobrist_hash)
+        })
+    }
+
     pub(crate) fn verif_quiescence(&mut self, bitboard: Bitboard) -> i32 {
         self.state.bitboard = bitboard;
         let zobrist_pawn_hash = self.state.bitboard.calculate_zobrist_pawn_hash();
